@@ -264,11 +264,11 @@ def main():
     cfg = gen_config()
     res = Result(PID)
     T = tier()
-    N = 3 if T == "quick" else 4
+    N = 4 if T == "quick" else 5
     inst = []
     for n in range(1, N + 1):
         for cl in ("factor", "solve", "inv", "det"):
-            if cl in ("inv", "det") and n > (2 if T == "quick" else 3):
+            if cl in ("inv", "det") and n > N - 1:
                 continue
             inst.append(("plu", n, cl, None))
             inst.append(("ldl", n, cl, None))
@@ -288,7 +288,7 @@ def main():
                           "a_real_ldl_inv_", "a_real_ldl_det", "a_real_ldl_lndet", "a_real_ldl_sgndet", "a_real_llt", "a_real_llt_L", "a_real_llt_lower", "a_real_llt_lower_",
                           "a_real_llt_upper", "a_real_llt_upper_", "a_real_llt_solve", "a_real_llt_inv", "a_real_llt_inv_", "a_real_llt_det", "a_real_llt_lndet",
                           "a_real_swap", "a_real_triL", "a_real_triL1", "a_real_triU", "a_real_diag1"])
-    res.bounds = {"orders": "n = 1..%d (factor/solve), inverse and determinant up to n = 2 (quick) / 3 (thorough); all matrix and right-hand-side entries symbolic reals; every pivoting pattern is a path" % N,
+    res.bounds = {"orders": "n = 1..%d (factor/solve), inverse and determinant up to n = %d; all matrix and right-hand-side entries symbolic reals; every pivoting pattern is a path" % (N, N - 1),
                   "failure clause": "zero column / zero row+column, two equal rows, non-positive first Cholesky pivot, for n <= 3"}
     res.outside = ["the rounding half of the statement: componentwise backward-error / residual bounds, agreement 'within rounding'", "n > %d" % N, "overflow/underflow, NaN inputs",
                    "lndet: log is an uninterpreted function (only the structure sum of log|diag| is decided)"]
@@ -296,7 +296,7 @@ def main():
                        "sqrt(x) = the unique y >= 0 with y*y = x"]
     res.stubs = ["log: uninterpreted real function LOG", "sqrt: fresh y >= 0 with y*y == x"]
     e2.run_e2(res, cfg, ["linalg_plu.c", "linalg_ldl.c", "linalg_llt.c", "linalg.c", "math.c", "a.c"], inst, builder, group="lu", validate_every=3, tol=1e-6,
-              exec_attrs={"force_solver": True}, time_budget=600 if T == "quick" else 5000)
+              exec_attrs={"force_solver": True}, exec_opts={"solver": "nra"}, time_budget=600 if T == "quick" else 5000)
     e2.finish_coverage(res, must_cover=["a_real_plu", "a_real_ldl", "a_real_llt", "a_real_plu_inv_", "a_real_ldl_inv_", "a_real_llt_inv_"],
                        report_funcs=set(f for f in res.functions))
     return res.finish()
